@@ -186,7 +186,11 @@ func (m *Machine) unop(f *frame, x *ssa.UnOp) Value {
 	case token.XOR:
 		iv := v.(VInt)
 		if m.intMode {
-			// ^x = -x-1
+			if w, signed, ok := intInfo(x.Type()); ok && !signed {
+				// unsigned: ^x = (2^w-1) - x
+				return VInt{lin: linConst(mask(w)).add(iv.lin, -1)}
+			}
+			// signed: ^x = -x-1
 			return VInt{lin: iv.lin.scale(big.NewInt(-1)).add(linConstI(1), -1)}
 		}
 		return VInt{bv: bvNot(iv.bv)}
